@@ -79,6 +79,7 @@ func finish(r *report.Run, us []*unit, results []*unitResult, deaths []deathRec,
 	var maxAlloc uint64
 	groups := map[string]*vgroup{}
 	var irrepro []string
+	notes := map[string]int64{}
 	perReactor := map[string]int64{}
 	var samples []json.RawMessage
 	statesSeen := map[string]bool{}
@@ -101,6 +102,9 @@ func finish(r *report.Run, us []*unit, results []*unitResult, deaths []deathRec,
 		}
 		for k, v := range res.Stages {
 			stages[k] += v
+		}
+		for k, v := range res.Notes {
+			notes[k] += v
 		}
 		for k, v := range res.Contained {
 			contained[k] += v
@@ -251,6 +255,7 @@ func finish(r *report.Run, us []*unit, results []*unitResult, deaths []deathRec,
 	r.Set("stages", stages)
 	r.Set("contained_panics", containedTotal)
 	r.Set("contained_panic_sites", contained)
+	r.Set("cases_with_rejection_expected", notes["rejection-expected"])
 	r.Set("cases", cases)
 	r.Set("cases_decoded_to_a_message", decoded)
 	r.Set("node_builds", builds)
@@ -292,6 +297,7 @@ func finish(r *report.Run, us []*unit, results []*unitResult, deaths []deathRec,
 		r.Require(stages["ev:added-to-pool"] > 0, "no evidence ever entered the pool")
 		r.Require(stages["pex:addresses-added"] > 0, "no address ever entered the address book")
 		r.Require(stages["conn:delivered"] > 0, "connection framing never delivered a message")
+		r.Require(notes["rejection-expected"] > 100, "the rejection oracle was applied to fewer than 100 cases")
 		r.Require(stages["roundtrip-ok"] >= 24, "fewer than 24 message types went through the encode/decode round trip")
 	}
 	if len(machinery) > 0 {
